@@ -28,6 +28,8 @@ TRUSTED_BASE = [
     "T4 external crates: regex, nom/pori, walkdir (depth limits, skip_current_dir pops one level per call), itertools",
     "T5 std as modelled by Kani (saturating_*, checked_*, NonZero*, Vec, Box, char predicates); vstd + listed assume_specifications in Verus",
     "T6 rule-checker guarantees used as preconditions of algebra contracts (no adjacent boundaries, ordered non-degenerate repetition bounds, invariant size < 0x10000)",
+    "T7 items hoisted verbatim from a function body (rule::branch tables, Token::has_root's Fold impl, partition's pop_expression_bytes) are compiled in a child module of the same file: names resolve through `use super::*` plus the function's own hoisted `use` items; the enclosing function's remaining body (the driver that calls them) is not under contract",
+    "T8 verifier-only oracles replace what CBMC cannot decide: multiplication (C10.var.product.structure; axioms proved of the product of naturals by Verus), the regex engine (C13 Not obligations), the starting search of a non-leaf token (C06.branch.rooted.nested); each is listed in contracts/ASSUMPTIONS.md",
 ]
 
 
